@@ -190,7 +190,7 @@ CLAIMS = {
              "for bit and must return exactly koala's nodes and edges (plaquette and vertex paths, both metrics, early stopping on/off); success within maxits = n_edges, validity, "
              "optimality against an independent Dijkstra, the flux law and the metric axioms are evaluated on the implementation.",
         note="Trusted: Lean kernel/Mathlib/standard axioms; harness; equality of IEEE arithmetic between the compiled Lean driver and numpy. CostLaws for IEEE doubles is an assumption (positivity monitored on every lattice). "
-             "Heur (metric axioms of the centre-to-centre distance, in exact arithmetic) is an explicit hypothesis of path_shortest: the triangle inequality of the Euclidean and minimum-image distances is classical and not re-proved, and IEEE rounding of sums is modelled; optimality is additionally compared with an independent Dijkstra on every query. "
+             "Heur (metric axioms of the node-to-node distance) is an explicit hypothesis of path_shortest and is discharged in exact real arithmetic for both offered metrics: heur_euclid, heur_periodic (nodes in the unit cell) and heur_periodic_span (nodes anywhere, no two more than 3/2 apart in a coordinate - plaquette centres, which lie outside the unit square for plaquettes that straddle a wall; the hypothesis is monitored on every lattice); IEEE rounding of the sums is not modelled, so optimality is additionally compared on every query with an independent Dijkstra that measures lengths with the harness's own Euclidean / minimum-image length, never koala's. "
              "That a path is found within maxits = n_edges iterations is not proved (partial): decided on every generated query.",
         ref="§7 C11"),
     "C13": dict(
